@@ -281,8 +281,8 @@ impl Sut for TdSut {
         if res != "panic" {
             let o = self.observe();
             if !o["panic"].is_null() {
-                rec["res"] = json!("panic");
-                rec["panic"] = o["panic"].clone();
+                // the call itself returned; one of the read methods used to observe the digest panicked
+                rec["obs_panic"] = o["panic"].clone();
             } else {
                 rec["obs_post"] = o;
             }
@@ -567,8 +567,7 @@ impl Sut for TdRealSut {
         if res != "panic" {
             let o = self.observe();
             if !o["panic"].is_null() {
-                rec["res"] = json!("panic");
-                rec["panic"] = o["panic"].clone();
+                rec["obs_panic"] = o["panic"].clone();
             } else {
                 rec["same_as_before"] = json!(o == obs_pre);
                 rec["obs_post"] = o;
